@@ -85,6 +85,18 @@ func TestVerifC18(t *testing.T) {
 		rnd := verifrt.NewRand(verifrt.Seed(), fmt.Sprintf("%s/%d", check, i))
 		root, _ := os.MkdirTemp(base, "s")
 		bucketName := verifrt.Pick(rnd, []string{"local-telemetry-uploaded", "b", "x.y", "merged"})
+		placeDir := bucketName
+		if i%5 == 4 {
+			// the bucket's directory entry is a symbolic link to a directory (storage
+			// mounted elsewhere): objects live in the target, and are listed as ever
+			placeDir = "zz-volume"
+			os.Mkdir(filepath.Join(root, placeDir), 0o777)
+			if err := os.Symlink(placeDir, filepath.Join(root, bucketName)); err == nil {
+				res.Hit("bucket-directory-is-a-symlink")
+			} else {
+				placeDir = bucketName
+			}
+		}
 		bh, err := NewFSBucket(ctx, root, bucketName)
 		if err != nil {
 			res.Violate("new-bucket", err.Error(), verifrt.CaseReplay(i, nil))
@@ -399,7 +411,7 @@ func TestVerifC18(t *testing.T) {
 			// confinement: every regular file of the main bucket's model is where it should be, nothing else
 			files := listRegular(root)
 			for n, c := range model {
-				rel := filepath.Join(bucketName, filepath.FromSlash(n))
+				rel := filepath.Join(placeDir, filepath.FromSlash(n))
 				if sz, ok := files[rel]; !ok || sz != int64(len(c)) {
 					res.Violate("placement", fmt.Sprintf("object %q should be the file %s (%d bytes); on disk: present=%v size=%d", n, rel, len(c), ok, sz), rp)
 					bad = true
@@ -425,7 +437,7 @@ func TestVerifC18(t *testing.T) {
 		}
 		os.RemoveAll(root)
 	}
-	res.Require("two-writers-at-once", "overlapping-listings", "list-during-write", "overwrite-shorter", "read-absent", "list", "list-deeply-nested")
+	res.Require("bucket-directory-is-a-symlink", "two-writers-at-once", "overlapping-listings", "list-during-write", "overwrite-shorter", "read-absent", "list", "list-deeply-nested")
 	if err := res.Write(); err != nil {
 		t.Fatal(err)
 	}
